@@ -2186,8 +2186,9 @@ StylesheetExecutionContextDefault::getNodeSetByKey(
                 getPrefixResolver();
     assert(resolver != 0);
 
-    XalanQNameByValue&  theQName =
-        m_xpathExecutionContextDefault.getScratchQName();
+    // Building the key table evaluates the use expressions, which may
+    // overwrite the scratch QName of the XPath execution context...
+    XalanQNameByValue   theQName(getMemoryManager());
 
     theQName.set(name, resolver, locator);
 
